@@ -80,6 +80,37 @@ def run(tier, seed):
                    "non-trivial = at least two transactions wrote a common entity and at least one commit; distinct = distinct (kind, op sequence)")
 
 
-def replay(path, tier, seed):
+def tm_replay(prop, path, tier, seed):
+    """Re-runs one TM-level trace (the "input" of a replay file) through implementation, model and
+    oracle and prints the three.  Session-level and no-failing-input replays re-run the whole check."""
     print(open(path).read())
-    return run(tier, seed)
+    data = gv.json.load(open(path))
+    if not data.get("input") or str(data.get("kind", "")).startswith("session") or data.get("no_failing_input_found"):
+        return tm_flow(prop, tier, seed, "replay of a non-trace file: full run")
+    ok, out, binp = gv.cargo_build("c03")
+    if not ok:
+        print("harness build failed:\n" + out[-2000:])
+        return 1
+    rc, so, se, cases, dt = gv.run_harness(binp, ["--prop", prop, "--seed", seed, "--replay", path],
+                                           gv.os.path.join(gv.BUILD, "out", "%s_replay.jsonl" % prop.lower()))
+    if rc != 0 or not cases:
+        print("replay: harness produced no case (rc=%d): %s" % (rc, se))
+        return tm_flow(prop, tier, seed, "replay fallback: full run")
+    c = cases[0]
+    gv.coq_make([gv.vo_target(r) for r in REQ_RUN])
+    pair, model = gv.coq_eval(prop + "_replay", REQ_RUN, [c["msg"][5:], c["show"]])
+    print("input          :", c["in"])
+    print("implementation :", c["impl"])
+    print("model answers  :", model)
+    print("(model == implementation, property oracle on the implementation's answers) =", pair)
+    bad = pair != "(true, true)"
+    if bad and c.get("kcoq"):
+        k = gv.coq_eval(prop + "_replay_k", REQ_RUN, [c["kcoq"]])[0]
+        print("listed finding class %s holds: %s" % (c.get("kid"), k))
+        if pair == "(true, false)" and k == "true":
+            bad = False
+    return 1 if bad else 0
+
+
+def replay(path, tier, seed):
+    return tm_replay("C03", path, tier, seed)
